@@ -119,6 +119,8 @@ def main(run: Run):
     tree_equiv.add_to(run, "C06")
     from . import patterns_l1
     patterns_l1.add_to(run)
+    from . import validation
+    validation.add_to(run, ['csr_decoder_add'])
     return run.finish(
         explanation="csr.Decoder.elaborate contract: strobe routing by the memory map's window placement, low address bits "
                     "forwarded as offset, write data copied, read data OR-merged; combinational over all inputs. "
